@@ -16,6 +16,7 @@ type IterV struct {
 	MT      *types.Map
 	Visited Term
 	Str     bool
+	Seq     int // creation order (the most recent iterator belongs to the innermost / current loop)
 }
 
 func (v IterV) GoType() types.Type { return nil }
@@ -292,7 +293,8 @@ func (x *Exec) rangeOp(st *State, fr *Frame, in *ssa.Range) {
 	}
 	m := x.val(st, fr, in.X).(Scalar).T
 	ks := x.mapKeySort(mt)
-	fr.regs[in] = IterV{Map: m, MT: mt, Visited: zeroOfSort(arrSort(ks, SBool))}
+	x.sym.counter++
+	fr.regs[in] = IterV{Map: m, MT: mt, Visited: zeroOfSort(arrSort(ks, SBool)), Seq: x.sym.counter}
 }
 
 func (x *Exec) nextOp(st *State, fr *Frame, in *ssa.Next) []*State {
